@@ -10,6 +10,7 @@ mod = importlib.import_module(f"props.{pid.lower()}")
 rng = random.Random(0 * 1000003 + sum(map(ord, pid)))
 t=time.time(); cases = mod.generate(os.environ.get("TIER","quick"), rng); print("gen", time.time()-t)
 t=time.time(); obs = [mod.run_impl(c) for c in cases]; print("impl", time.time()-t)
+keep=[i for i,c in enumerate(cases) if c.get("coq", True)]; cases=[cases[i] for i in keep]; obs=[obs[i] for i in keep]
 t=time.time(); terms = [mod.to_coq(c, o) for c, o in zip(cases, obs)]; print("emit", time.time()-t, sum(map(len,terms)))
 t=time.time(); fails, err = common.run_coq_cases(mod.COQ_MODULE, terms, header=getattr(mod,"COQ_HEADER",""), shard=getattr(mod,"SHARD",250), check_fn=getattr(mod,"COQ_CHECK","check"), case_type=getattr(mod,"COQ_CASE_TYPE","case")); print("coq", time.time()-t)
 print("fails", len(fails), fails[:20], (err or "")[:2000])
